@@ -231,6 +231,12 @@ def c05(ctx):
     # C05 is about outcome categories, error identities, resets and purity: numbers are compared by C04/C10/C11/C12
     mism, summary, total = run_streams(ctx, ALL, structure_only=True, **p)
     stream_traces(ctx, ALL, 600 if ctx.tier == "quick" else 10000)
+    nob = vlib.run_tlapm(ctx, "StreamShapesProof", ["StreamShapes"])
+    ctx.notes.append("TLAPS: StreamShapesProof.tla proves (%d obligations), for histories of any length and each of the 13 non-freeze kinds, that the "
+                     "output category is present exactly when the count of present samples since the last reset has reached the kind's threshold, "
+                     "that no stale error is ever shown (after a non-error event never an error; after an error that error) and that a reset event "
+                     "forgets the state before it; StreamShapes is the abstraction the recorded traces are validated against and Streams.tla "
+                     "checks (ShapeCommutes) that it is a refinement mapping of the valued machines" % nob)
     finish_streams(ctx, summary, total,
                    "Non-trivial = contains a present sample after an event the kind treats as a reset (or, for kinds "
                    "without resets, at least two present samples).")
